@@ -239,13 +239,13 @@ Definition gate_table : list (string * gt_mat) := [
      all other basis states unchanged.  (column = input state, row = output state) *)
   ("DoubleExcitation", gt_sparse 16 p1 [(i0011, i0011, c 0); (i1100, i0011, s 0);
                                         (i1100, i1100, c 0); (i0011, i1100, -p s 0)]);
-  (* |0011> -> cos(phi/2)|0011> - sin(phi/2)|1100>,  |1100> -> cos(phi/2)|1100> + sin(phi/2)|0011>,
+  (* |0011> -> cos(phi/2)|0011> + sin(phi/2)|1100>,  |1100> -> cos(phi/2)|1100> - sin(phi/2)|0011>  (docstring as corrected by the fix: commit),
      |x> -> e^{i phi/2}|x> otherwise *)
-  ("DoubleExcitationPlus", gt_sparse 16 (ep 0) [(i0011, i0011, c 0); (i1100, i0011, -p s 0);
-                                                (i1100, i1100, c 0); (i0011, i1100, s 0)]);
+  ("DoubleExcitationPlus", gt_sparse 16 (ep 0) [(i0011, i0011, c 0); (i1100, i0011, s 0);
+                                                (i1100, i1100, c 0); (i0011, i1100, -p s 0)]);
   (* same rotation as DoubleExcitationPlus, |x> -> e^{-i phi/2}|x> otherwise *)
-  ("DoubleExcitationMinus", gt_sparse 16 (em 0) [(i0011, i0011, c 0); (i1100, i0011, -p s 0);
-                                                 (i1100, i1100, c 0); (i0011, i1100, s 0)]);
+  ("DoubleExcitationMinus", gt_sparse 16 (em 0) [(i0011, i0011, c 0); (i1100, i0011, s 0);
+                                                 (i1100, i1100, c 0); (i0011, i1100, -p s 0)]);
   (* Documented by its circuit (figure orbital_rotation.jpeg):
        fSWAP(pi) on wires 1,2 ; G(phi) on wires 0,1 ; G(phi) on wires 2,3 ; fSWAP(pi) on wires 1,2
      with G = SingleExcitation and fSWAP = FermionicSWAP as documented above/below, i.e.
